@@ -5,6 +5,7 @@ import (
 	"fmt"
 	"net"
 	"sort"
+	"strconv"
 	"strings"
 	"sync"
 	"testing"
@@ -102,6 +103,21 @@ func perms(n int) [][]int {
 // describes it — skip faulty servers, surface a KRB-ERROR, switch to TCP on response-too-big,
 // fall back to the other transport when every server of the first one is faulty.
 func Expected(c Case) map[string]bool {
+	if c.Names == "srv" {
+		c.Names = "single" // found through service records instead of kdc lines: the same servers
+	}
+	if c.Names == "srv-tcp-only" {
+		// no _kerberos._udp records: nothing can be reached over UDP, everything over TCP as usual
+		eps := append([]EP{}, c.EPs...)
+		for i := range eps {
+			eps[i].UDP = kdc.Refuses
+		}
+		c.EPs, c.Names = eps, "single"
+	}
+	if c.Names == "single+dead" {
+		// a further kdc line names a host that does not resolve: one more server whose every endpoint is faulty
+		c.EPs, c.Names = append(append([]EP{}, c.EPs...), EP{kdc.Refuses, kdc.Refuses}), "single"
+	}
 	if c.Names == "multi" {
 		// a name whose first address is dead: a TCP connection goes on to the next address, a UDP "connection" does not
 		// (nothing tells the sender in time), so over UDP every such host behaves as if it refused
@@ -167,9 +183,14 @@ func Expected(c Case) map[string]bool {
 func Eval(c Case) evid.Verdict {
 	return evid.SafeEval(func() evid.Verdict {
 		w := kdc.NewWorld(99)
-		r := w.AddRealm("EXAMPLE.COM", kdc.Policy{})
-		r.AddClient("alice", "password1", nil, 0)
 		ip := kdc.UniqueIP()
+		realm := "EXAMPLE.COM"
+		if strings.HasPrefix(c.Names, "srv") {
+			// the KDCs are found through DNS service records, which are published per realm: every case has a realm of its own
+			realm = "R" + strings.ReplaceAll(ip, ".", "-") + ".TEST"
+		}
+		r := w.AddRealm(realm, kdc.Policy{})
+		r.AddClient("alice", "password1", nil, 0)
 		var servers []*kdc.Server
 		var addrs []string
 		code := c.Code
@@ -223,6 +244,25 @@ func Eval(c Case) evid.Verdict {
 				}
 				addrs[i] = net.JoinHostPort(name, port)
 			}
+			if c.Names == "single+dead" {
+				// the responder knows no such name (NXDOMAIN at once)
+				addrs = append(addrs, fmt.Sprintf("retired-%s.verif.test:88", strings.ReplaceAll(ip, ".", "-")))
+			}
+			if strings.HasPrefix(c.Names, "srv") {
+				// no kdc lines at all: dns_lookup_kdc = true and _kerberos._udp / _kerberos._tcp service records ("srv-tcp-only":
+				// the realm publishes no _udp records, as sites do whose KDCs take TCP only)
+				var recs []dns.SRV
+				for _, a := range addrs {
+					h, p, _ := net.SplitHostPort(a)
+					pn, _ := strconv.Atoi(p)
+					recs = append(recs, dns.SRV{Target: h, Port: pn})
+				}
+				ns.SetSRV("_kerberos._tcp."+realm, recs...)
+				if c.Names == "srv" {
+					ns.SetSRV("_kerberos._udp."+realm, recs...)
+				}
+				addrs = nil
+			}
 		}
 		if len(c.List) > 0 {
 			base := addrs
@@ -233,12 +273,15 @@ func Eval(c Case) evid.Verdict {
 		}
 		defer stopAll()
 		lim := map[string]int{"1": 1, "small": 10, "large": 32700}[c.Limit]
-		cfg, err := config.NewFromString(kdc.ConfText(kdc.ConfOpts{DefaultRealm: "EXAMPLE.COM", ETypes: "aes128-cts-hmac-sha1-96", NoAddresses: true, UDPPrefLimit: &lim},
-			map[string][]string{"EXAMPLE.COM": addrs}))
+		txt := kdc.ConfText(kdc.ConfOpts{DefaultRealm: realm, ETypes: "aes128-cts-hmac-sha1-96", NoAddresses: true, UDPPrefLimit: &lim}, map[string][]string{realm: addrs})
+		if strings.HasPrefix(c.Names, "srv") {
+			txt = strings.Replace(txt, "dns_lookup_kdc = false", "dns_lookup_kdc = true", 1)
+		}
+		cfg, err := config.NewFromString(txt)
 		if err != nil {
 			return evid.Fail("harness", "config: %v", err)
 		}
-		cl := client.NewWithPassword("alice", "EXAMPLE.COM", "password1", cfg, client.DisablePAFXFAST(true))
+		cl := client.NewWithPassword("alice", realm, "password1", cfg, client.DisablePAFXFAST(true))
 		defer cl.Destroy()
 		if v := exchange(c, cl, &servers, ""); !v.OK || len(c.Then) == 0 {
 			return v
@@ -518,7 +561,24 @@ func TestProp(t *testing.T) {
 			}
 		}
 	}
-	r.Rule("enum (continued): TCP endpoints also cut the reply inside its body or inside its length header; the KRB-ERROR code runs through every code 1..93 except 24, 25, 52 and 68, on a single KDC and again on one of two KDCs while the other refuses or closes early (both list orders, three tries); kdc lines naming hosts that resolve (through an in-process DNS responder) to one address or to two dead addresses followed by the real one; hosts listed on several kdc lines (a faulty host two to four times around one working host, three tries each because the library shuffles the list); two-exchange cases: one client logs in twice while the endpoints change behaviour in between (7 x 7 single-KDC phases x 3 limits, and a slice with the working KDC moving from the first to the second host)")
+	// a kdc line naming a host that no longer resolves, next to working ones (three tries each: the library shuffles the list)
+	for _, eps := range [][]EP{{{kdc.Answers, kdc.Answers}}, {{kdc.Answers, kdc.Refuses}}, {{kdc.Refuses, kdc.Answers}}, {{kdc.TooBig, kdc.Answers}}, {{kdc.Answers, kdc.Refuses}, {kdc.Refuses, kdc.Refuses}}} {
+		for _, l := range limits {
+			for try := 0; try < 3; try++ {
+				add(Case{EPs: eps, Limit: l, Names: "single+dead", Try: try})
+			}
+		}
+	}
+	// KDCs found through DNS service records (dns_lookup_kdc, no kdc lines), published for both transports or for TCP only
+	for _, names := range []string{"srv", "srv-tcp-only"} {
+		for _, eps := range [][]EP{{{kdc.Answers, kdc.Answers}}, {{kdc.Refuses, kdc.Answers}}, {{kdc.Answers, kdc.Refuses}}, {{kdc.TooBig, kdc.Answers}}, {{kdc.AnswersErr, kdc.AnswersErr}},
+			{{kdc.Refuses, kdc.Refuses}, {kdc.Answers, kdc.Answers}}, {{kdc.ClosesEarly, kdc.CutsBody}, {kdc.Refuses, kdc.Answers}}} {
+			for _, l := range limits {
+				add(Case{EPs: eps, Limit: l, Names: names})
+			}
+		}
+	}
+	r.Rule("enum (continued): TCP endpoints also cut the reply inside its body or inside its length header; the KRB-ERROR code runs through every code 1..93 except 24, 25, 52 and 68, on a single KDC and again on one of two KDCs while the other refuses or closes early (both list orders, three tries); kdc lines naming hosts that resolve (through an in-process DNS responder) to one address or to two dead addresses followed by the real one; a further kdc line naming a host that does not resolve; no kdc lines at all but dns_lookup_kdc with _kerberos._udp and _kerberos._tcp service records, or _tcp records only; hosts listed on several kdc lines (a faulty host two to four times around one working host, three tries each because the library shuffles the list); two-exchange cases: one client logs in twice while the endpoints change behaviour in between (7 x 7 single-KDC phases x 3 limits, and a slice with the working KDC moving from the first to the second host)")
 	var mu sync.Mutex
 	var retry []Case
 	seenKey := map[string]bool{}
